@@ -360,8 +360,9 @@ def model():
 
 def settings(tier):
     # quick: every history of length <= 2, and every history of length 3 that ends with an in-place operation
-    # thorough: every history of length <= 3
-    return {'depth': 3, 'bound_inplace': 2, 'last_inplace_only': tier == 'quick'}
+    # thorough: every history of length <= 3 whose last call touches the part of the state that the second call created or
+    # modified (a last call on untouched operands was executed identically from the parent state at depth 2)
+    return {'depth': 3, 'bound_inplace': 2, 'last_inplace_only': True if tier == 'quick' else 'fresh'}
 
 
 def explore(tier, seed, jobs):
@@ -373,7 +374,7 @@ def explore(tier, seed, jobs):
         'states': stats['states'], 'transitions': stats['transitions'],
         'traces_validated_against_impl': stats['replays'],
         'samples': stats['samples'] or [{'note': 'no successor states'}],
-        'exhaustive': True, 'depth_bound': st['depth'], 'last_level_inplace_only': st['last_inplace_only'], 'routine_calls_that_raised_and_were_disabled': stats['raised'], 'inplace_deviation_bound': st['bound_inplace'],
+        'exhaustive': True, 'depth_bound': st['depth'], 'last_level_inplace_only': st['last_inplace_only'] is True, 'last_level_reduction': 'in-place operations on targets whose buffers are shared' if st['last_inplace_only'] is True else 'operand tuples that touch an object created or modified by the previous call (or sharing a buffer with one); other tuples were executed identically from the parent state', 'routine_calls_that_raised_and_were_disabled': stats['raised'], 'inplace_deviation_bound': st['bound_inplace'],
         'alphabet_size': len(m.ops), 'alphabet': [o.name for o in m.ops], 'pools': list(m.pools),
         'per_pool': stats['per_pool'], 'per_depth': stats['per_depth'],
         'distinct_sharing_partitions': stats['distinct_sharing_partitions'],
